@@ -1161,11 +1161,11 @@ package keyvalue
 //@   use dirValid(newname)
 //@   use childDirAll(oldname)
 //@   dispatch hackpadfs.FileInfo fileInfo
-//@   dispatch FileRecord *fileData mem.fileRecord
+//@   dispatch FileRecord *fileData *runOnceFileRecord mem.fileRecord
 //@   dispatch Transaction *mem.transaction
 //@   modifies world(), mapOf(ms(fs).records), held(ms(fs).mu)
 //@   loop 1 modifies mapOf(ms(fs).records), held(ms(fs).mu), world()
-//@   loop 1 invariant "inv" fsMem(fs) && VP(oldname) && VP(newname) && rangeindex >= -1 && rangeindex < max(len(files), 1) && (len(files) > 0 || rangeindex == -1)
+//@   loop 1 invariant "inv" fsMem(fs) && VP(oldname) && VP(newname) && rangeindex >= -1 && rangeindex < max(len(files), 1) && (len(files) > 0 || rangeindex == -1) && world() == old(world())
 //@   ensures "gate" [C04 C05] implies(!VP(oldname) || !VP(newname), linkErr(err, oldname, newname) && errIs(err, hackpadfs.ErrInvalid) && memSame(fs) && world() == old(world()))
 //@   ensures "missing-source" [C01 C05] implies(rnValid(oldname, newname) && !old(kvHas(fs, oldname)), linkErr(err, oldname, newname) && errIs(err, hackpadfs.ErrNotExist) && memSame(fs))
 //@   ensures "same-file" [C01] implies(rnValid(oldname, newname) && old(rnSrcFile(fs, oldname)) && oldname == newname, err == nil && memSame(fs))
